@@ -338,6 +338,11 @@ def u_value_eval(c):
         c.prove("symbol/builtins-last", r is len)
     st, r = run(it, it.getattr(it.call(VSymbol, ["missing"], {}), "eval"), [env])
     c.prove("symbol/unknown-name-SelectorError", st == "raise" and exc_name(r) == "SelectorError")
+    # the environment may also be a resolver FUNCTION (what a module installs as __ptera_resolver__): a name is what it returns
+    resolved = SymObj("resolved-by-function", Val.ref(z3.IntVal(c.new_id())), closed=True)
+    asked = []
+    st, r = run(it, it.getattr(it.call(VSymbol, ["some.name"], {}), "eval"), [SummaryFn("resolver", lambda it_, a, k: (asked.append(a[0]), resolved)[1])])
+    c.prove("symbol/resolver-function-is-asked-and-its-answer-returned", st == "ok" and r is resolved and asked == ["some.name"])
     call = it.call(VCall, [it.call(VSymbol, ["every"], {}), (it.call(VSymbol, ["3"], {}), it.call(VKeyword, [it.call(VSymbol, ["start"], {}), it.call(VSymbol, ["g"], {})], {}))], {})
     st, r = run(it, it.getattr(call, "eval"), [env])
     c.prove("call/evaluated-once-with-evaluated-arguments", st == "ok" and r == "RESULT" and len(calls) == 1 and list(calls[0][0]) == [3]
